@@ -777,3 +777,67 @@ inductive NextArm where
         out.append(T.footer("PosTable"))
         return "".join(out)
 
+
+    # ----------------------------------------------------------------------------------------------
+    # BinopTyping: the step of `parse_expr_binop` that decides the type both operands of an arithmetic / comparison /
+    # bit operator are converted to *after* `most_significant_non_vector` picked one of the two operand types:
+    # "Remap all bool types to int". (The ranks, `require_integer`, the short-circuit test and the `left_order >
+    # right_order` choice are in C03's Gen.TypingTables, which this table is used together with.)
+    # ----------------------------------------------------------------------------------------------
+    @gen("BinopTyping")
+    def binop_typing():
+        expr = T.src("typer/src/typer/expressions.rs")
+        pb = fn_body(expr, "parse_expr_binop")
+
+        def lower(x):
+            return x[0].lower() + x[1:]
+        # the target is the result of most_significant_non_vector on the two non-vector ids, nothing else
+        m = re.search(r"let mut target = most_significant_non_vector\( lhs_nv_id, rhs_nv_id, lhs\.location, rhs\.location, &mut context\.module, \)\?;",
+                      normws(pb))
+        if not m:
+            raise ExtractError("parse_expr_binop: `let mut target = most_significant_non_vector(lhs_nv_id, rhs_nv_id, ..)?` not found")
+        rest = normws(pb)[m.end():]
+        # everything between that statement and the `target` that ends the block
+        endm = re.search(r"\} target \};", rest)
+        if not endm:
+            raise ExtractError("parse_expr_binop: end of the common-type block (`target };`) not found")
+        mid = rest[:endm.start() + 1].strip()
+        # optional `let NAME = matches!(op, A | B | ..);` definitions, then exactly one `if let ... { target = transform_scalar }`
+        named = {}
+        while True:
+            dm = re.match(r"let (\w+) = matches!\( ?op, ((?:ast::BinOp::\w+ \| )*ast::BinOp::\w+),? ?\); ", mid)
+            if not dm:
+                break
+            named[dm.group(1)] = re.findall(r"ast::BinOp::(\w+)", dm.group(2))
+            mid = mid[dm.end():].strip()
+        im = re.fullmatch(r"if let Some\(scalar\) = context\.module\.type_registry\.extract_scalar\(target\) && scalar == ir::ScalarType::(\w+)"
+                          r"((?: && !?\w+)*) \{ target = context \.module \.type_registry \.transform_scalar\(target, ir::ScalarType::(\w+)\) \}", mid)
+        if not im:
+            raise ExtractError(f"parse_expr_binop: the step after most_significant_non_vector has an unknown shape: {mid[:200]!r}")
+        frm, extra, to = im.group(1), im.group(2), im.group(3)
+        # operators of the arm this block belongs to
+        arm = re.search(r"match \*op \{ ((?:ast::BinOp::\w+ \| )*ast::BinOp::\w+) => \{ let left_base", normws(pb))
+        if not arm:
+            raise ExtractError("parse_expr_binop: operator list of the arithmetic arm not found")
+        ops = re.findall(r"ast::BinOp::(\w+)", arm.group(1))
+        sc = re.search(r"let target_nv_id = if (.*?) \{", normws(pb))
+        short = re.findall(r"\*op == ast::BinOp::(\w+)", sc.group(1)) if sc else []
+        if not short:
+            raise ExtractError("parse_expr_binop: short-circuit test not found")
+        applies = [o for o in ops if o not in short]
+        for cj in [c for c in extra.split(" && ") if c]:
+            neg = cj.startswith("!")
+            name = cj.lstrip("!")
+            if name not in named:
+                raise ExtractError(f"parse_expr_binop: condition `{cj}` of the bool remap refers to an unknown name")
+            applies = [o for o in applies if (o not in named[name]) == neg]
+        out = ["import RsslVerif.Gen.TypingTables\n" + T.header("BinopTyping", ["typer/src/typer/expressions.rs"])]
+        out.append("open RsslVerif.Gen.RankTable RsslVerif.Gen.TypingTables\n\n")
+        out.append("/-- `parse_expr_binop`, after `most_significant_non_vector`: a common type whose scalar is this one .. -/\n"
+                   f"def remapFrom : Scalar := .{lower(frm)}\n")
+        out.append(f"/-- .. is replaced by this one (`transform_scalar(target, ..)`) .. -/\ndef remapTo : Scalar := .{lower(to)}\n")
+        out.append("/-- .. for these operators (all operators of the arm that are not short-circuit operators, minus those the\n"
+                   "    condition of the `if` excludes) -/\n"
+                   "def remapApplies (b : BinOp) : Bool :=\n  " + T.lean_list("." + lower(o) for o in applies) + ".contains b\n")
+        out.append(T.footer("BinopTyping"))
+        return "".join(out)
